@@ -101,6 +101,50 @@ def _bin_of_switch(body, du, sw):
     return None
 
 
+def _range_contains(body, du, sw):
+    """(root of x, origin of lo, origin of hi, inclusive?) when the switch tests `range.contains(&x)` for a
+    range built right there from two bounds"""
+    t = body.blocks[sw].term
+    d = t.discr
+    if d is None or d.kind not in ("copy", "move") or d.place.proj:
+        return None
+    s = du.single(d.place.local)
+    if s is None or s[0] != "call":
+        return None
+    c = s[2]
+    m = re.search(r"core::ops::(RangeInclusive|Range)::<.*>::contains(::<.*>)?$", c.callee.target_p() if c.callee.indirect is None else "")
+    if not m or len(c.args) != 2:
+        return None
+    ro = defuse.strip_refs(du.origin(c.args[0]))
+    if ro[0] == "call" and ro[1].endswith("::new") and len(ro[2]) == 2:
+        lo_o, hi_o = ro[2]
+    elif ro[0] == "agg" and len(ro[2]) >= 2:
+        lo_o, hi_o = ro[2][0], ro[2][1]
+    else:
+        return None
+    # x: the local behind the reference
+    xa = c.args[1]
+    xs = du.single(xa.place.local) if xa.kind in ("copy", "move") and not xa.place.proj else None
+    hops = 0
+    while xs is not None and xs[0] == "stmt" and xs[2].rv.kind == "use" and hops < 4:
+        xa = xs[2].rv.ops[0]
+        xs = du.single(xa.place.local) if xa.kind in ("copy", "move") and not xa.place.proj else None
+        hops += 1
+    if xs is None or xs[0] != "stmt" or xs[2].rv.kind != "ref":
+        return None
+    import zf
+    pl = xs[2].rv.place
+    hops = 0
+    while tuple(pl.proj) == ("*",) and hops < 4:        # a reborrow `&*r`: go to what r refers to
+        ds = du.single(pl.local)
+        if ds is None or ds[0] != "stmt" or ds[2].rv.kind != "ref":
+            break
+        pl = ds[2].rv.place
+        hops += 1
+    root = _root(du, zf.Op("copy", pl))
+    return (root, lo_o, hi_o, m.group(1) == "RangeInclusive")
+
+
 def _holds(body, du, bb, want_op, left_root, right_pred):
     """some edge condition of bb establishes `left want_op right` for the local left_root (not
     reassigned since) and a right operand accepted by right_pred(origin)"""
@@ -110,6 +154,18 @@ def _holds(body, du, bb, want_op, left_root, right_pred):
     for sw, v, tb in G.edge_conditions(body, bb):
         tr = G.truth(body.blocks[sw].term, v)
         bn = _bin_of_switch(body, du, sw)
+        if tr is True and bn is None:
+            # `(lo..=hi).contains(&x)` / `(lo..hi).contains(&x)` held: x >= lo and x <= hi (< hi)
+            rc = _range_contains(body, du, sw)
+            if rc is not None:
+                x_root, lo_o, hi_o, incl = rc
+                if x_root == left_root and G.stable(body, du, [left_root[0]], sw, tb, bb):
+                    if want_op == "Ge" and right_pred(lo_o):
+                        return True
+                    if want_op == "Le" and right_pred(hi_o):
+                        return True
+                    if want_op == "Lt" and not incl and right_pred(hi_o):
+                        return True
         if tr is None or bn is None:
             continue
         op, a, b_, neg = bn
@@ -656,9 +712,22 @@ def rule_classify(chk, w):
     they take), evaluated over an abstraction of the evidence: every field is unanswered or answered
     with a value of one of the classes the tests distinguish."""
     import itertools
-    fns = {n: _one(chk, w, "CLASSIFY", Z318 + n) for n in ("classify", "classify_preparation", "classify_crossing")}
+    fns = {"classify": _one(chk, w, "CLASSIFY", Z318 + "classify")}
     if None in fns.values():
         return
+    # the helpers classify delegates to (a call whose result is the classification), transitively; their
+    # number and names are the code's business
+    work = ["classify"]
+    while work:
+        n = work.pop()
+        for _bb, t in fns[n].body.calls():
+            if t.callee.indirect is None and t.dest is not None and t.dest.local == 0 and not t.dest.proj and \
+                    t.callee.target_p().startswith(Z318):
+                hn = t.callee.target_p().rsplit("::", 1)[-1]
+                hf = w.by_p.get(t.callee.target_p(), [])
+                if hn not in fns and len(hf) == 1:
+                    fns[hn] = hf[0]
+                    work.append(hn)
     tables = {}
     for n, f in fns.items():
         b, du = f.body, defuse.DefUse(f.body)
@@ -700,20 +769,37 @@ def rule_classify(chk, w):
         pass
 
     def ev(txt, st, arg2):
-        m = re.match(r"^eq\(&\*arg0\.(\w+), &core::option::Option::Some\{(\d)\}\)$", txt)
+        m = re.match(r"^(eq|ne)\(&\*arg0\.(\w+), &core::option::Option::Some\{(\d+)\}\)$", txt)
         if m:
-            return int(st[m.group(1)] is not None and st[m.group(1)] == int(m.group(2)))
+            v_ = st[m.group(2)]
+            if m.group(2) == "source_actions":
+                same = v_ is not None and int(m.group(3)) == 2 and v_ in ("two", "preptwo")
+                if int(m.group(3)) != 2:
+                    raise Unrecognised(txt)
+            else:
+                same = v_ is not None and v_ == int(m.group(3))
+            return int(same == (m.group(1) == "eq"))
+        m = re.match(r"^\(\(\*arg0\.(\w+) as Some\)\.0 (Ne|Eq) (\d+)\)$", txt)
+        if m and m.group(1) in st and isinstance(st[m.group(1)], int):
+            return int((st[m.group(1)] == int(m.group(3))) == (m.group(2) == "Eq"))
         m = re.match(r"^disc\(\*arg0\.(\w+)\)$", txt)
         if m:
             return int(st[m.group(1)] is not None)
         m = re.match(r"^\(\*arg0\.(\w+) as Some\)\.0$", txt)
         if m and m.group(1) in st and isinstance(st[m.group(1)], int):
             return st[m.group(1)]
+        # the source action count: the helper's parameter, or the Some payload when tested in classify itself
+        SA = "(*arg0.source_actions as Some).0"
+        if SA in txt and txt != SA:
+            txt = txt.replace(SA, "arg2")
+            arg2 = st["source_actions"]
         if txt == "(arg2 Ne preparation_tx_actions(&*arg1))":
             return int(arg2 not in ("prep", "preptwo"))
-        m = re.match(r"^\(arg2 Ne (\d+)\)$", txt)
-        if m and int(m.group(1)) == 2:
-            return int(arg2 not in ("two", "preptwo"))
+        if txt == "(arg2 Eq preparation_tx_actions(&*arg1))":
+            return int(arg2 in ("prep", "preptwo"))
+        m = re.match(r"^\(arg2 (Ne|Eq) (\d+)\)$", txt)
+        if m and int(m.group(2)) == 2:
+            return int((arg2 not in ("two", "preptwo")) == (m.group(1) == "Ne"))
         if txt == "is_canonical_denomination(&*arg1, (*arg0.sole_destination_value as Some).0)":
             return int(st["sole_destination_value"] == "canon")
         raise Unrecognised(txt)
